@@ -173,17 +173,23 @@ def _gates(tier):
     yield dict(name="vhdx.header_version", kind="numeric", sparse=vimg, off=fields[cur + ".version"][1], width=2, endian="<",
                accepted=lambda v: v == 1, open_patched=vopen)
     # a region nobody knows: ignored when optional, the file is unsupported when the entry says Required
-    def vhdx_region(required):
+    def vhdx_region(*required):
         sp = vimg.sparse(log=False)
         patches = {}
         for n in ("regi1", "regi2"):
             base = fields[n + ".signature"][1]
             cnt, = struct.unpack("<I", sp.peek_at(base + 8, 4))
-            patches[base + 8] = struct.pack("<I", cnt + 1)
-            patches[base + 16 + 32 * cnt] = bytes(range(0xA0, 0xB0)) + struct.pack("<QII", 0x300000, 0x100000, required)
+            patches[base + 8] = struct.pack("<I", cnt + len(required))
+            for j, req in enumerate(required):
+                patches[base + 16 + 32 * (cnt + j)] = bytes(range(0xA0, 0xB0)) + struct.pack("<QII", 0x300000, 0x100000, req)
         return vopen(patches)
 
     yield dict(name="vhdx.unknown_required_region", kind="single", seed_ok=lambda: vhdx_region(0), fault=lambda: vhdx_region(1))
+    # the same unknown region listed twice, required in one of the two entries
+    yield dict(name="vhdx.unknown_required_region.twice.required-first", kind="single", seed_ok=lambda: vhdx_region(0, 0),
+               fault=lambda: vhdx_region(1, 0))
+    yield dict(name="vhdx.unknown_required_region.twice.required-last", kind="single", seed_ok=lambda: vhdx_region(0, 0),
+               fault=lambda: vhdx_region(0, 1))
     for i in range(5):
         yield dict(name=f"vhdx.metadata_item_guid[{i}]", kind="magic", sparse=vimg, off=fields[f"meta.entry{i}.id"][1], width=16,
                    open_patched=vopen, thin=4)
